@@ -384,13 +384,22 @@ def _size(n):
     return sum(1 for _ in ast.walk(n)) if isinstance(n, ast.AST) else 1
 
 
+VALUE_WRAPPERS = {'maximum', 'minimum', 'clip', 'clamp', 'abs', 'sqrt', 'exp', 'log', 'conj', 'real', 'square', 'sign'}
+
+
 def _wraps(big, small):
     """big is small wrapped by a few method/attribute/unary layers (e.g. X.conj() vs X)."""
     cur = big
     for _ in range(3):
         if ast.dump(cur) == ast.dump(small):
             return True
-        if isinstance(cur, ast.Call) and isinstance(cur.func, ast.Attribute):
+        if isinstance(cur, ast.Call) and _fid(cur.func).split('.')[-1] in VALUE_WRAPPERS and _fid(cur.func).startswith('F.'):
+            # F.maximum(0, X) / F.clip(X, a, b) / F.abs(X) ... around X: one value-changing application more in one arm
+            inner = [a for a in cur.args if not isinstance(a, ast.Constant)]
+            if len(inner) != 1:
+                return False
+            cur = inner[0]
+        elif isinstance(cur, ast.Call) and isinstance(cur.func, ast.Attribute):
             cur = cur.func.value
         elif isinstance(cur, ast.Attribute):
             cur = cur.value
